@@ -158,7 +158,7 @@ def rule_A4(ctx):
         kinds_seen = set()
         reported = set()
         for rv, ts in outs:
-            ev = ts[3]
+            ev = tuple(e for e in ts[3] if e[0] in ("defer", "resolve", "apply"))
             if not ev:
                 continue
             n_paths += 1
@@ -274,4 +274,174 @@ def rule_A5(ctx):
             if not ok:
                 r.finding(p, "defer-args:%s|%s" % (_fmt(left), _fmt(right)), loc(f["hir"]), "`%s` offers the host defer_op(%s, %s): %s" % (name, _fmt(left), _fmt(right), why))
     r.floor("distinct defer_op argument shapes", n, 22)
+    return r
+
+
+# --------------------------------------------------------------------------------------- G3 / T4
+
+
+def _tag_key(sym):
+    return "@tag:%r" % (sym,)
+
+
+def _is_uns_err(rv):
+    return is_variant(rv, "Err") and rv[2] and rv[2][0] == ("uns",)
+
+
+def rule_G3(ctx):
+    """UnsupportedOpTypes never reaches the Err return of an instruction function, for any operand type pair."""
+    F = ctx.F
+    r = RuleResult("G3", "unsupported-escape: for every instruction function and every pair of operand types the 'unsupported operand types' error is absorbed (deferred to the host / unit), never returned")
+    model = get_model(ctx, refine_tags=True)
+    gdt = [last(v) for v in variants(F, GDT)]
+    r.floor("GarnishDataType variants", len(gdt), 21)
+    # where the error is constructed
+    ctor = 0
+    for f in F.fns.values():
+        if f["crate"] not in ("garnish_lang_runtime", "garnish_lang_traits") or f["kind"] == "Closure":
+            continue
+        for b in f["mir"]["blocks"]:
+            t = b["term"]
+            if t["k"] == "Call" and last(t.get("def") or "") == "unsupported_types" and "RuntimeError" in t["def"] and not b["cleanup"]:
+                ctor += 1
+    r.floor("constructions of RuntimeError::unsupported_types()", ctor, 3)
+    r.analysed["unsupported_types_constructions"] = ctor
+    total_pairs = 0
+    for p in sorted(instruction_fns(F)):
+        f = F.fns[p]
+        name = f["name"]
+        if name == "make_list":
+            continue
+        # which functions can see the error at all (cheap pre-pass without tag facts)
+        try:
+            outs0 = model.summary(p, entry_args(f["mir"]["argc"]), 0)
+        except (ai.StateCapExceeded, rt.Unmodelled) as e:
+            r.finding(p, "uninterpretable", loc(f["hir"]), "cannot interpret (%s): failing closed" % e)
+            continue
+        may = any(_is_uns_err(rv) for rv, _ts in outs0)
+        r.examine((p, "may-raise"), may, {"fn": name, "may_return_unsupported_without_type_facts": may})
+        if not may:
+            continue
+        # enumerate operand type pairs
+        escaping = []
+        npops = max((ts[4] for _rv, ts in outs0), default=0)
+        syms = [("s", "pop", 1), ("s", "pop", 2)][: max(1, min(2, npops))]
+        import itertools
+
+        for combo in itertools.product(gdt, repeat=len(syms)):
+            facts = tuple(sorted((_tag_key(s), ("vn", v)) for s, v in zip(syms, combo)))
+            try:
+                outs = model.summary(p, entry_args(f["mir"]["argc"]), 0, facts)
+            except (ai.StateCapExceeded, rt.Unmodelled) as e:
+                r.finding(p, "uninterpretable", loc(f["hir"]), "cannot interpret under type facts (%s): failing closed" % e)
+                break
+            total_pairs += 1
+            if any(_is_uns_err(rv) for rv, _ts in outs):
+                escaping.append(combo)
+        r.examined += len(gdt) ** len(syms)
+        if escaping:
+            # combo order: (type of pop1 = right operand, type of pop2 = left operand)
+            if len(syms) == 2:
+                pairs = sorted(set((c[1], c[0]) for c in escaping))
+                lefts = sorted(set(l for l, _r in pairs))
+                rights = sorted(set(rr for _l, rr in pairs))
+                desc = "left in {%s} x right in {%s} (%d pairs)" % (", ".join(lefts), ", ".join(rights), len(pairs))
+                inst = "escape:left={%s}|right={%s}" % (",".join(lefts), ",".join(rights))
+            else:
+                vals = sorted(set(c[0] for c in escaping))
+                desc = "operand in {%s}" % ", ".join(vals)
+                inst = "escape:operand={%s}" % ",".join(vals)
+            r.finding(p, inst, loc(f["hir"]), "`%s` returns Err(UnsupportedOpTypes) for %s: an undefined operand combination makes execution fail instead of being offered to the host and yielding unit" % (name, desc))
+    r.analysed["type_pair_contexts_interpreted"] = total_pairs
+    r.analysed["abstract_states"] = model.states
+    # control: the fixture has an escaping and an absorbing twin
+    for p, f in F.fns.items():
+        if p.startswith("gfixture::g3::") and f["kind"] != "Closure" and f.get("name", "").startswith(("ctl_", "ok_")):
+            try:
+                outs = model.summary(p, [TOP] * f["mir"]["argc"], 0)
+                hit = any(_is_uns_err(rv) for rv, _ts in outs)
+            except (ai.StateCapExceeded, rt.Unmodelled):
+                hit = False
+            if f["name"].startswith("ctl_"):
+                r.control(f["name"], hit)
+            else:
+                r.neg_control(f["name"], not hit)
+    return r
+
+
+TESTING = {
+    # fn -> (number of tested operands, how the verdict shows)
+    "jump_if_true": (1, "jump"), "jump_if_false": (1, "jump"), "and": (1, "jump"), "or": (1, "jump"),
+    "not": (1, "bool"), "tis": (1, "bool"), "xor": (2, "bool"),
+}
+
+
+def _verdict(outs, how):
+    """Set of observable verdicts over the Ok outcomes."""
+    vs = set()
+    for rv, ts in outs:
+        kind, d, v, f, jump = outcome_of(rv, ts)
+        if kind != "ok":
+            continue
+        if how == "jump":
+            vs.add("jumps" if jump == "some" else "falls-through")
+        else:
+            evs = [e[0] for e in ts[3] if e[0] in ("add_true", "add_false")]
+            vs.add("/".join(evs) if evs else "no-boolean")
+    return vs
+
+
+def rule_T4(ctx):
+    F = ctx.F
+    r = RuleResult("T4", "truthiness-agreement: the seven testing instructions classify all 21 value types identically: exactly {False, Unit} are false")
+    sp = spec("truthiness.json")
+    falsy = set(sp["false"])
+    model = get_model(ctx, refine_tags=True)
+    gdt = [last(v) for v in variants(F, GDT)]
+    r.floor("GarnishDataType variants", len(gdt), 21)
+    found = 0
+    table = {}
+    for name, (n_ops, how) in TESTING.items():
+        cands = [p for p in instruction_fns(F) if F.fns[p]["name"] == name]
+        if not cands:
+            r.anchor_missing("runtime fn " + name, "public instruction function not found")
+            continue
+        p = cands[0]
+        f = F.fns[p]
+        found += 1
+        row = {}
+        for tv in gdt:
+            if n_ops == 1:
+                facts = ((_tag_key(("s", "pop", 1)), ("vn", tv)),)
+                try:
+                    outs = model.summary(p, entry_args(f["mir"]["argc"]), 0, facts)
+                except (ai.StateCapExceeded, rt.Unmodelled) as e:
+                    r.finding(p, "uninterpretable", loc(f["hir"]), "cannot interpret (%s): failing closed" % e)
+                    break
+                vs = _verdict(outs, how)
+                row[tv] = vs
+                truthy = tv not in falsy
+                want = sp["expect"][name]["truthy" if truthy else "falsy"]
+                r.examine((name, tv), True, {"fn": name, "operand_type": tv, "verdict": sorted(vs), "expected": want} if tv in ("Unit", "Number") else None)
+                if vs != {want}:
+                    r.finding(p, "truth:%s:%s" % (name, tv), loc(f["hir"]), "`%s` on a value of type %s gives %s; with exactly {False, Unit} false it must be %s" % (name, tv, sorted(vs), want))
+            else:
+                for tv2 in gdt:
+                    # pop1 = right operand, pop2 = left operand
+                    facts = tuple(sorted([(_tag_key(("s", "pop", 1)), ("vn", tv2)), (_tag_key(("s", "pop", 2)), ("vn", tv))]))
+                    try:
+                        outs = model.summary(p, entry_args(f["mir"]["argc"]), 0, facts)
+                    except (ai.StateCapExceeded, rt.Unmodelled) as e:
+                        r.finding(p, "uninterpretable", loc(f["hir"]), "cannot interpret (%s): failing closed" % e)
+                        break
+                    vs = _verdict(outs, how)
+                    lt, rt_ = tv not in falsy, tv2 not in falsy
+                    want = "add_true" if lt != rt_ else "add_false"
+                    r.examine((name, tv, tv2), True, {"fn": name, "left": tv, "right": tv2, "verdict": sorted(vs)} if (tv, tv2) == ("Unit", "Number") else None)
+                    if vs != {want}:
+                        r.finding(p, "truth:%s:%s,%s" % (name, tv, tv2), loc(f["hir"]), "`%s` on (%s, %s) gives %s; exclusive-or of the two truth values must be %s" % (name, tv, tv2, sorted(vs), want))
+        table[name] = {k: sorted(v) for k, v in row.items()}
+    r.floor("testing instruction functions", found, 7)
+    r.analysed["tables"] = table
+    r.analysed["abstract_states"] = model.states
     return r
